@@ -261,3 +261,43 @@ class ExtJobserver:
     def close(self):
         os.close(self.r)
         os.close(self.w)
+
+
+# ----------------------------------------------------------------- lock/job trace -> wire events
+
+LOG_LOCK_MAGIC = 0x10000000
+
+
+def lock_events(trace):
+    ev = []
+    mode = {}
+    for pid, ts, name, a in trace:
+        if name == "lock.try":
+            fid = int(a[0])
+            if 0 < fid < LOG_LOCK_MAGIC:
+                ev.append(("lo,%d,%d" if a[1] == "1" else "lf,%d,%d") % (pid, fid))
+        elif name == "lock.wait.end":
+            fid = int(a[0])
+            if 0 < fid < LOG_LOCK_MAGIC:
+                ev.append("lo,%d,%d" % (pid, fid))
+        elif name == "lock.unlock":
+            fid = int(a[0])
+            # a process in REDO_UNLOCKED mode only pretends to own the lock (force_owned): its drop is not a release
+            if 0 < fid < LOG_LOCK_MAGIC and not mode.get((pid, fid)):
+                ev.append("ul,%d,%d" % (pid, fid))
+        elif name == "job.begin":
+            mode[(pid, int(a[0]))] = a[1] == "unlocked"
+        elif name == "job.script":
+            fid = int(a[0])
+            ev.append("sc,%d,%d,%d" % (pid, fid, 1 if mode.get((pid, fid)) else 0))
+        elif name == "job.record.end":
+            ev.append("re,%d,%s" % (pid, a[0]))
+        elif name == "js.returned":
+            ev.append("ex,%d" % pid)
+    return ev
+
+
+def replay_locks(trace):
+    ev = lock_events(trace)
+    ans = run_lines(MODEL, ["locks-replay " + (";".join(ev) if ev else "-")])[0]
+    return ans, ev
